@@ -220,6 +220,23 @@ CLAIMED = {
         'Python operator protocol and NumPy scalar unwrapping trusted. Model follows fix b6f6a0c.',
         'DESIGN.md section 4, C20',
     ),
+    'C10': (
+        'Coq proof over the shared operator model, for every container nesting / arity (single block included), every '
+        'block (pytree inputs/outputs) and every input over any commutative ring: matrix-free specs of block row / diagonal / '
+        'column, their dense forms (hstack / block_diag / vstack in pytree-leaf order, read off basis columns), structural '
+        'transposes with adjointness closure, block-wise inverse, exact constructor characterisation, the four block '
+        'product rules (fire iff equal tree structure; sound; row x column = sum); differential correspondence of '
+        'constructor / mv / .T / .I / as_matrix / reduce / products of the real blocks.py with NumPy/SciPy oracle',
+        'blockdiag/blockcol/blockrow_spec, blockrow_single, block*_matrix, block*_dense, matrix_is_basis_columns, '
+        'block_transposes(+adjoint), blockdiag_inverse(_sound), ctor_ok_iff, ctor_rejects_mismatch, '
+        'block_rules_fire_iff_same_treedef, block_rules_sound, row_col_is_sum: 36 obligations closed under the global '
+        'context, nothing partial. Tie: C-tie on 9 container shapes x ~25 block kinds and all compatible pairs of ~50 block '
+        'operators (592 quick / 1808 thorough cases).',
+        'Matrix forms assume each block acts as a matrix (shown for the measured-matrix leaves of Exec by '
+        'exec_table_leaf_acts_as); adjointness of leaf pairs is C03; iterative InverseOperator blocks compared structurally '
+        '(action: C06); jax.tree / hstack / vstack / block_diag specs compared with the real functions on every case.',
+        'DESIGN.md section 4, C10',
+    ),
 }
 
 PENDING_REASON = 'check not built yet in this session (work in progress; see DESIGN.md section 8 for the order of work)'
